@@ -3,6 +3,7 @@ package main
 import (
 	"fmt"
 	"go/token"
+	"go/types"
 	"sort"
 	"strings"
 
@@ -436,6 +437,9 @@ func c12Tally(p *Prog, ls *Lockset, r *Report, fli interface{}) {
 					return true, several
 				case bo.Op == token.LSS && strings.Contains(px, "."+FN("FeatureLocal.writeApprovalReceived")):
 					return true, !reached
+				case bo.Op == token.LSS && isCounterLookup(bo.X):
+					// the tally read through a local holding the peer's inner map ("received[counter] < count")
+					return true, !reached
 				}
 				if bo.Op == token.GTR {
 					if c2, isC := bo.X.(*ssa.Call); isC && builtinName(&c2.Call) == "len" {
@@ -569,4 +573,16 @@ func lockOrderOn(p *Prog, r *Report, rule string, prefix string, what string) {
 		r.Pass(rule, "order:"+prefix, "", fmt.Sprintf("%d %s, %d held->acquired edges over all mutexes, no cycle through them", n, what, len(lo.Edges)))
 	}
 	r.Floor(rule, what, n, 2)
+}
+
+// isCounterLookup: v reads an integer out of a map keyed by the write's message counter.
+func isCounterLookup(v ssa.Value) bool {
+	lk, ok := v.(*ssa.Lookup)
+	if !ok || lk.CommaOk {
+		return false
+	}
+	if bt, isB := lk.Type().Underlying().(*types.Basic); !isB || bt.Info()&types.IsInteger == 0 {
+		return false
+	}
+	return strings.HasSuffix(Path(lk.Index), ".RequestHeader.MsgCounter")
 }
